@@ -18,8 +18,8 @@ pub fn prop() -> Prop {
         subs: vec![
             Sub::enumerate("pairs_grid", pairs_grid),
             Sub::enumerate("single_grid", single_grid),
-            Sub::tape("pairs_random", 16, 500_000, 25_000_000, pairs_random),
-            Sub::tape("single_random", 16, 200_000, 10_000_000, single_random),
+            Sub::tape("pairs_random", 24, 500_000, 25_000_000, pairs_random),
+            Sub::tape("single_random", 24, 200_000, 10_000_000, single_random),
         ],
     }
 }
